@@ -65,6 +65,9 @@ static double exp(double x) { return __CPROVER_uninterpreted_exp(x); }
 //@rename TermListGF_call/2 => TermListGF_call_tau
 //@rename GreensFunctionPart_call/1 => GFP_call_z
 static cplx spec_term_z(GFTerm t, cplx z) { return op_div_cplx_cplx(t.Residue, op_sub_cplx_double(z, t.Pole)); }
+/* twins for the other spelling of an increment (`++it` for `it++` and vice versa): same effect.  X_inc yields the iterator after the step
+ * (exact); X_postinc made from X_inc is void, so a use of its value does not compile (UNDECIDED) instead of being modelled wrongly */
+#define TermSetIt_postinc(it_) ((void)TermSetIt_inc(it_))
 //@function Pomerol::GreensFunctionPart::Term::operator()(std::complex<double>) const as GFTerm_call_z
 //@contract
 __CPROVER_requires(__CPROVER_is_fresh(self, sizeof(*self)))
